@@ -791,7 +791,33 @@ def t_old_model(ctx):
         raise common.HarnessError("the model of the pre-4b6a233 code no longer reproduces the far-tail NaN (%d/%d)" % (nans, len(FAR_CORPUS)))
 
 
+def broken_theorems(ctx):
+    """names of the generated obligations that no longer check (line numbers of the build errors -> theorem names)"""
+    import os, re
+    out = []
+    for rel in PROP_FILES:
+        path = os.path.join(common.LEAN_DIR, rel)
+        try:
+            src = open(path).read().split("\n")
+        except OSError:
+            continue
+        for msg in getattr(ctx, "proof_broken", []) or []:
+            m = re.search(re.escape(rel) + r":(\d+):", msg)
+            if not m:
+                continue
+            for ln in range(min(int(m.group(1)), len(src)) - 1, -1, -1):
+                t = re.match(r"\s*theorem\s+([\w.']+)", src[ln])
+                if t:
+                    if t.group(1) not in out:
+                        out.append(t.group(1))
+                    break
+    return out
+
+
 def run(ctx):
+    bt = broken_theorems(ctx)
+    if bt:
+        print("generated/proved obligations that no longer check: %s" % ", ".join(bt), flush=True)
     corr_uniform(ctx)
     if len(ctx.violations) <= 5:
         corr_gauss(ctx)
@@ -809,6 +835,7 @@ def run(ctx):
                 "generated constant obligations (Gauss-Legendre tables, thresholds, literals)",
         "files": PROP_FILES,
         "broken": list(getattr(ctx, "proof_broken", []) or []),
+        "broken_theorems": bt,
     }
     ctx.extra["test_part"] = {
         "what": "NOT proved: that bvn_cdf (Drezner-Wesolowsky/Genz) approximates the bivariate normal CDF to 1e-7, lies in [0,1] and is "
